@@ -187,3 +187,217 @@ Proof.
       pose proof (N_dec_nonempty a). destruct (N_dec a); [contradiction|]. cbn [length]. lia. }
     lia.
 Qed.
+
+(* ---------- what the sections contain ---------- *)
+Fixpoint enum (s : N) (es : list Save.xentry) : list (N * Save.xentry) :=
+  match es with
+  | [] => []
+  | e :: es' => (s, e) :: enum (s + 1) es'
+  end.
+Definition flatten (secs : list xsection) : list (N * Save.xentry) :=
+  flat_map (fun s => enum (fst s) (snd s)) secs.
+
+(* the entries the loop meets from [id] on *)
+Fixpoint present (x : Save.xmap) (conv : Save.xentry -> Save.xentry) (id : N) (n : nat) : list (N * Save.xentry) :=
+  match n with
+  | O => []
+  | S n' => match Save.xget x id with Some e => [(id, conv e)] | None => [] end ++ present x conv (id + 1) n'
+  end.
+
+Lemma enum_snoc : forall es s e, enum s (es ++ [e]) = enum s es ++ [(s + N.of_nat (length es), e)].
+Proof.
+  induction es as [|a es IH]; intros s e; cbn [app enum length].
+  - replace (s + N.of_nat 0) with s by lia. reflexivity.
+  - rewrite IH. cbn [app]. replace (s + 1 + N.of_nat (length es)) with (s + N.of_nat (S (length es))) by lia. reflexivity.
+Qed.
+
+Lemma flatten_sections_loop : forall n id x conv start cur,
+  (cur = [] \/ start + N.of_nat (length cur) = id) ->
+  flatten (sections_loop n id x conv start cur) = enum start cur ++ present x conv id n.
+Proof.
+  induction n as [|n IH]; intros id x conv start cur Hinv; cbn [sections_loop present].
+  - destruct cur; [reflexivity|]. unfold flatten. cbn [flat_map fst snd]. rewrite !app_nil_r. reflexivity.
+  - destruct (Save.xget x id) as [e|] eqn:Eg.
+    + rewrite IH.
+      2:{ right. rewrite app_length. cbn [length]. destruct cur; [cbn; lia|]. destruct Hinv as [Hc|Hinv]; [discriminate|]. lia. }
+      destruct cur as [|c cur'].
+      * cbn [app enum]. reflexivity.
+      * destruct Hinv as [Hc|Hinv]; [discriminate|]. rewrite enum_snoc, Hinv. rewrite <- app_assoc. reflexivity.
+    + destruct cur as [|c cur'].
+      * rewrite IH by (left; reflexivity). reflexivity.
+      * unfold flatten. cbn [flat_map fst snd]. fold (flatten (sections_loop n (id + 1) x conv id [])).
+        rewrite IH by (left; reflexivity). reflexivity.
+Qed.
+
+(* ---------- what the reader inserts ---------- *)
+Fixpoint add_all (m : Xref.xmap) (l : list (N * Save.xentry)) : Xref.xmap :=
+  match l with
+  | [] => m
+  | (k, Save.XNormal off g) :: l' =>
+    if g <=? u16_max then add_all (Xref.xinsert m k (Xref.XNormal off g)) l' else add_all m l'
+  | _ :: l' => add_all m l'
+  end.
+
+Lemma add_all_app : forall a b m, add_all m (a ++ b) = add_all (add_all m a) b.
+Proof.
+  induction a as [|[k e] a IH]; intros b m; [reflexivity|]. cbn [app add_all].
+  destruct e as [| |off g|c i]; try apply IH. destruct (g <=? u16_max); apply IH.
+Qed.
+
+Lemma add_section_enum : forall es m start index,
+  start + index + N.of_nat (length es) <= two32 ->
+  add_section m start index (map triple es) = add_all m (enum (start + index) es).
+Proof.
+  induction es as [|e es IH]; intros m start index Hb; [reflexivity|].
+  cbn [map add_section enum add_all length] in *.
+  assert (Hmod : (start + index) mod two32 = start + index) by (apply N.mod_small; unfold two32 in *; lia).
+  replace (start + index + 1) with (start + (index + 1)) by lia.
+  destruct e as [| |off g|c i]; cbn [triple andb]; try (apply IH; lia).
+  rewrite Hmod. destruct (g <=? u16_max); apply IH; lia.
+Qed.
+
+Definition sec_in (B : N) (s : xsection) : Prop :=
+  snd s <> [] /\ fst s + N.of_nat (length (snd s)) <= B /\ Forall entry_ok (snd s).
+
+Lemma parsed_sections_flatten : forall secs m,
+  Forall (sec_in two32) secs -> parsed_sections secs m = add_all m (flatten secs).
+Proof.
+  induction secs as [|[s es] secs IH]; intros m H; [reflexivity|]. inversion H as [|? ? [_ [Hb _]] H']; subst.
+  cbn [fst snd] in Hb. cbn [parsed_sections]. unfold flatten. cbn [flat_map fst snd]. rewrite add_all_app.
+  rewrite add_section_enum by lia. replace (s + 0) with s by lia. apply IH. exact H'.
+Qed.
+
+(* the sections stay inside the range the loop walks over *)
+Lemma sections_loop_in : forall n id x conv start cur B,
+  (cur = [] \/ start + N.of_nat (length cur) = id) -> Forall entry_ok cur ->
+  (forall j e, Save.xget x j = Some e -> entry_ok (conv e)) -> id + N.of_nat n <= B ->
+  Forall (sec_in B) (sections_loop n id x conv start cur).
+Proof.
+  induction n as [|n IH]; intros id x conv start cur B Hinv Hcur Hx Hb; cbn [sections_loop].
+  - destruct cur as [|c cur']; [constructor|]. destruct Hinv as [Hc|Hinv]; [discriminate|].
+    constructor; [|constructor]. repeat split; cbn [fst snd]; [discriminate | lia | exact Hcur].
+  - destruct (Save.xget x id) as [e|] eqn:Eg.
+    + apply IH; try assumption; try lia.
+      * right. rewrite app_length. cbn [length]. destruct cur; [cbn; lia|]. destruct Hinv as [Hc|Hinv]; [discriminate|]. lia.
+      * apply Forall_app. split; [exact Hcur|]. constructor; [|constructor]. apply (Hx id). exact Eg.
+    + destruct cur as [|c cur'].
+      * apply IH; try assumption; try lia. left; reflexivity.
+      * destruct Hinv as [Hc|Hinv]; [discriminate|]. constructor.
+        -- repeat split; cbn [fst snd]; [discriminate | lia | exact Hcur].
+        -- apply IH; try assumption; try lia; [left; reflexivity | constructor].
+Qed.
+
+(* ---------- sorted maps ---------- *)
+(* keys at least [lo], strictly increasing *)
+Fixpoint incr (lo : N) (x : Save.xmap) : Prop :=
+  match x with
+  | [] => True
+  | (k, _) :: x' => lo <= k /\ incr (k + 1) x'
+  end.
+
+Definition normal_ok (ke : N * Save.xentry) : Prop :=
+  match snd ke with Save.XNormal off g => off <= u32_max /\ g <= u16_max | _ => False end.
+
+Definition conv_entry (ke : N * Save.xentry) : N * Xref.xentry :=
+  (fst ke, match snd ke with
+           | Save.XNormal o g => Xref.XNormal o g
+           | Save.XCompressed c i => Xref.XCompressed c i
+           | Save.XFree => Xref.XFree
+           | Save.XUnusable => Xref.XUnusableFree
+           end).
+Definition conv_map (x : Save.xmap) : Xref.xmap := map conv_entry x.
+
+Lemma incr_weaken : forall x lo lo', lo' <= lo -> incr lo x -> incr lo' x.
+Proof. destruct x as [|[k e] x]; intros lo lo' H Hi; [exact I|]. cbn [incr] in *. destruct Hi. split; [lia|assumption]. Qed.
+
+Lemma xget_none_incr : forall x lo j, incr lo x -> j < lo -> Save.xget x j = None.
+Proof.
+  induction x as [|[k e] x IH]; intros lo j Hi Hj; [reflexivity|]. cbn [incr Save.xget] in *. destruct Hi as [H1 H2].
+  replace (k =? j) with false by (symmetry; apply N.eqb_neq; lia). apply (IH (k + 1)); [exact H2 | lia].
+Qed.
+
+Lemma present_ext : forall n id x y conv,
+  (forall j, id <= j -> Save.xget x j = Save.xget y j) -> present x conv id n = present y conv id n.
+Proof.
+  induction n as [|n IH]; intros id x y conv H; [reflexivity|]. cbn [present].
+  rewrite (H id) by lia. f_equal. apply IH. intros j Hj. apply H. lia.
+Qed.
+
+Lemma present_sorted : forall n lo x,
+  incr lo x -> Forall (fun ke => fst ke < lo + N.of_nat n) x -> Forall normal_ok x ->
+  present x table_conv lo n = x.
+Proof.
+  induction n as [|n IH]; intros lo x Hi Hb Hn.
+  - destruct x as [|[k e] x]; [reflexivity|]. cbn [incr] in Hi. inversion Hb; subst. cbn [fst] in *. lia.
+  - cbn [present]. destruct x as [|[k e] x].
+    + cbn [Save.xget app]. apply IH; [exact I | constructor | constructor].
+    + cbn [incr] in Hi. destruct Hi as [Hk Hi]. inversion Hb; subst. inversion Hn as [|? ? Hne Hn']; subst. cbn [fst] in *.
+      destruct (N.eq_dec k lo) as [->|Hne'].
+      * cbn [Save.xget]. rewrite N.eqb_refl. unfold normal_ok in Hne. cbn [snd] in Hne.
+        destruct e as [| |off g|c i]; try contradiction. cbn [table_conv app]. f_equal.
+        rewrite (present_ext n (lo + 1) ((lo, Save.XNormal off g) :: x) x).
+        -- apply IH; [exact Hi | | exact Hn']. eapply Forall_impl; [|exact H2]. intros a Ha. cbn beta in *. lia.
+        -- intros j Hj. cbn [Save.xget]. replace (lo =? j) with false by (symmetry; apply N.eqb_neq; lia). reflexivity.
+      * cbn [Save.xget]. replace (k =? lo) with false by (symmetry; apply N.eqb_neq; lia).
+        rewrite (xget_none_incr x (k + 1) lo Hi) by lia. cbn [app].
+        apply IH; [cbn [incr]; split; [lia | exact Hi] | | exact Hn].
+        constructor; [cbn [fst]; lia|]. eapply Forall_impl; [|exact H2]. intros a Ha. cbn beta in *. lia.
+Qed.
+
+Lemma xinsert_last : forall (m : Xref.xmap) k e,
+  Forall (fun ke => fst ke < k) m -> Xref.xinsert m k e = m ++ [(k, e)].
+Proof.
+  induction m as [|[i e'] m IH]; intros k e H; [reflexivity|]. inversion H; subst. cbn [fst] in *.
+  cbn [Xref.xinsert app]. replace (i =? k) with false by (symmetry; apply N.eqb_neq; lia).
+  replace (k <? i) with false by (symmetry; apply N.ltb_ge; lia). rewrite IH by assumption. reflexivity.
+Qed.
+
+Lemma add_all_sorted : forall x lo m,
+  incr lo x -> Forall normal_ok x -> Forall (fun ke => fst ke < lo) m ->
+  add_all m x = m ++ conv_map x.
+Proof.
+  induction x as [|[k e] x IH]; intros lo m Hi Hn Hm; [cbn; rewrite app_nil_r; reflexivity|].
+  cbn [incr] in Hi. destruct Hi as [Hk Hi]. inversion Hn as [|? ? Hne Hn']; subst.
+  unfold normal_ok in Hne. cbn [snd] in Hne. destruct e as [| |off g|c i]; try contradiction. destruct Hne as [_ Hg].
+  cbn [add_all]. replace (g <=? u16_max) with true by (symmetry; apply N.leb_le; exact Hg).
+  rewrite xinsert_last by (eapply Forall_impl; [|exact Hm]; intros a Ha; cbn beta in *; lia).
+  rewrite (IH (k + 1)); [| exact Hi | exact Hn' |].
+  - cbn [conv_map map conv_entry fst snd]. rewrite <- app_assoc. reflexivity.
+  - apply Forall_app. split; [eapply Forall_impl; [|exact Hm]; intros a Ha; cbn beta in *; lia|].
+    constructor; [cbn [fst]; lia | constructor].
+Qed.
+
+(* ---------- the table of a sorted map is read back as that map ---------- *)
+Theorem xref_table_roundtrip (x : Save.xmap) size more :
+  1 <= size -> size < two32 -> incr 1 x -> Forall (fun ke => fst ke < size) x -> Forall normal_ok x ->
+  xref_table (write_xref x size ++ bs "trailer" ++ more) =
+  POk {| x_type := XTTable; x_entries := conv_map x; x_size := 0 |} (bs "trailer" ++ more).
+Proof.
+  intros Hs1 Hs2 Hi Hb Hn. unfold write_xref. repeat (rewrite <- app_assoc; cbn [app]).
+  assert (Hin : Forall (sec_in size) (table_sections x size)).
+  { unfold table_sections. apply sections_loop_in.
+    - right. reflexivity.
+    - constructor; [exact I | constructor].
+    - intros j e Hg. destruct e; exact I || idtac. cbn [table_conv entry_ok].
+      assert (Hx : In (j, Save.XNormal offset gen) x).
+      { clear - Hg. induction x as [|[k e] x IH]; [discriminate|]. cbn [Save.xget] in Hg.
+        destruct (k =? j) eqn:E; [apply N.eqb_eq in E; subst; inversion Hg; left; reflexivity | right; apply IH; exact Hg]. }
+      rewrite Forall_forall in Hn. specialize (Hn _ Hx). unfold normal_ok in Hn. cbn [snd] in Hn.
+      unfold u32_max, u16_max in *. lia.
+    - rewrite N2Nat.id. lia. }
+  assert (Hok : Forall sec_ok (table_sections x size)).
+  { eapply Forall_impl; [|exact Hin]. intros [s es] [H1 [H2 H3]]. cbn [fst snd] in *.
+    unfold sec_ok, u32_max, two32 in *. cbn [fst snd]. repeat split; try assumption; lia. }
+  assert (Hin2 : Forall (sec_in two32) (table_sections x size)).
+  { eapply Forall_impl; [|exact Hin]. intros [s es] [H1 [H2 H3]]. cbn [fst snd] in *.
+    unfold sec_in. cbn [fst snd]. repeat split; try assumption; lia. }
+  assert (Hne : table_sections x size <> []).
+  { intro E. pose proof (flatten_sections_loop (N.to_nat (size - 1)) 1 x table_conv 0 [Save.XUnusable] (or_intror eq_refl)) as F.
+    unfold table_sections in E. rewrite E in F. discriminate F. }
+  rewrite xref_table_written by assumption.
+  rewrite parsed_sections_flatten by exact Hin2.
+  unfold table_sections. rewrite flatten_sections_loop by (right; reflexivity).
+  cbn [enum app add_all].
+  rewrite present_sorted; [| exact Hi | rewrite N2Nat.id; eapply Forall_impl; [|exact Hb]; intros a Ha; cbn beta in *; lia | exact Hn].
+  rewrite (add_all_sorted x 1 []) by (try assumption; constructor). reflexivity.
+Qed.
